@@ -8,11 +8,13 @@ import (
 	"os"
 	"strings"
 	"testing"
+	"time"
 
 	sdkmath "cosmossdk.io/math"
 	abci "github.com/cometbft/cometbft/abci/types"
 	sdk "github.com/cosmos/cosmos-sdk/types"
 	authtypes "github.com/cosmos/cosmos-sdk/x/auth/types"
+	vestingtypes "github.com/cosmos/cosmos-sdk/x/auth/vesting/types"
 	banktypes "github.com/cosmos/cosmos-sdk/x/bank/types"
 	minttypes "github.com/cosmos/cosmos-sdk/x/mint/types"
 	"github.com/ethereum/go-ethereum/common"
@@ -46,6 +48,7 @@ type blockFixture struct {
 	sdOther                    []int64 // second-denom balance each holds
 	fresh                      int
 	poor                       *itutiltypes.TestAccount // wallet with a tiny balance
+	vester                     *itutiltypes.TestAccount // a sender that is a vesting account
 	maxGas                     int64
 	nonces                     map[int]uint64 // optimistic next nonce per wallet index
 	heavy                      bool
@@ -114,6 +117,19 @@ func newBlockFixture(t *testing.T, maxGas int64) *blockFixture {
 			fund(w.GetEthAddress(), "utwo", 1_000_000)
 		}
 	}
+	// a sender that is a vesting account (a thousand units locked for good, the rest free like any wallet's): sending
+	// Ethereum transactions must leave it the vesting account it is
+	{
+		f.vester = c.s.CreateAccount()
+		ak := c.s.ChainApp.AccountKeeper()
+		base := ak.NewAccountWithAddress(ctx, f.vester.GetCosmosAddress()).(*authtypes.BaseAccount)
+		bva, err := vestingtypes.NewBaseVestingAccount(base, sdk.NewCoins(sdk.NewInt64Coin(c.evmDenom, 1000)), ctx.BlockTime().Add(100000*time.Hour).Unix())
+		require.NoError(t, err)
+		ak.SetAccount(ctx, vestingtypes.NewDelayedVestingAccountRaw(bva))
+		coins := sdk.NewCoins(sdk.NewCoin(c.evmDenom, sdkmath.NewIntFromBigInt(new(big.Int).Mul(big.NewInt(2), new(big.Int).Exp(big.NewInt(10), big.NewInt(18), nil)))))
+		require.NoError(t, bk.MintCoins(ctx, minttypes.ModuleName, coins))
+		require.NoError(t, bk.SendCoinsFromModuleToAccount(ctx, minttypes.ModuleName, f.vester.GetCosmosAddress(), coins))
+	}
 	// a poor wallet: enough for nothing but a couple of cheap txs
 	f.poor = c.s.CreateAccount()
 	fund(f.poor.GetEthAddress(), c.evmDenom, 30_000_000_000_000) // 21000 gas at 1 gwei = 2.1e13
@@ -137,6 +153,9 @@ func newBlockFixture(t *testing.T, maxGas int64) *blockFixture {
 
 func (f *blockFixture) senders() []*itutiltypes.TestAccount {
 	ws := append([]*itutiltypes.TestAccount{}, f.c.wallets[:5]...)
+	if f.vester != nil {
+		ws = append(ws, f.vester)
+	}
 	return append(ws, f.poor)
 }
 
@@ -395,6 +414,16 @@ func runBlocks(t *testing.T, f *blockFixture, rng *hx.Rng, p *hx.Proto, nTx int)
 		}
 		_ = bloom
 		p.Emit("end", eb.String())
+		// oracle: a vesting account that sent transactions is still that vesting account, with its coins still locked
+		if f.vester != nil {
+			acc := c.s.ChainApp.AccountKeeper().GetAccount(ctx2, f.vester.GetCosmosAddress())
+			dv, ok := acc.(*vestingtypes.DelayedVestingAccount)
+			if !ok {
+				p.Oracle("C15-sender-retyped", "the vesting account among the senders is a %T after block %d", acc, c.app.LastBlockHeight())
+			} else if l := dv.LockedCoins(ctx2.BlockTime()).AmountOf(c.evmDenom); !l.Equal(sdkmath.NewInt(1000)) {
+				p.Oracle("C15-sender-retyped", "the vesting account among the senders has %s locked after block %d, 1000 before", l, c.app.LastBlockHeight())
+			}
+		}
 		// oracle: the EVM module account holds nothing after any block
 		if b := c.balance(ctx2, authtypes.NewModuleAddress(evmtypes.ModuleName)); b.Sign() != 0 {
 			p.Oracle("evm-module-nonzero", "evm module account holds %s after block %d", b, c.app.LastBlockHeight())
